@@ -23,8 +23,9 @@ def model(pattern):
 
 def lookup(callee):
     if callee in _CACHE: return _CACHE[callee]
+    norm = re.sub(r'^(?:\w+::)+(?=<impl )', '', callee)
     for rx, f in _REG:
-        m = rx.fullmatch(callee)
+        m = rx.fullmatch(norm)
         if m:
             if f.__code__.co_argcount == 3:
                 g = (lambda ex, args, f=f, m=m: f(ex, args, m)); g.__name__ = f.__name__
@@ -758,12 +759,19 @@ def chars_adaptor(ex, name, it, rest):
         if it.i < len(it.s.chars):
             c = it.s.chars[it.i]; it.i += 1; return some(c)
         return none()
+    if name == 'peekable': return it
     items = it.s.chars[it.i:]; it.i = len(it.s.chars)
     return iter_adaptor(ex, name, SeqIter(items), rest, None)
 
 
 @model(r'(?:core::char::methods::|std::char::)?<impl char>::len_utf8')
-def char_len_utf8(ex, args): return simp(utf8_len(args[0]))
+def char_len_utf8(ex, args):
+    c = args[0]
+    if isinstance(c, int): return utf8_len(c)
+    if ex.decide(c < 0x80): return 1
+    if ex.decide(c < 0x800): return 2
+    if ex.decide(c < 0x10000): return 3
+    return 4
 
 
 @model(r'(?:core::str::|std::str::)?<impl str>::len')
@@ -972,3 +980,15 @@ def bigint_bits(ex, args):
 def lib_struct_eq(ex, args, m):
     r = val_eq(ex, args[0], args[1])
     return r if 'eq' in m.groups() else simp(b_not(r))
+
+
+@model(r"(?:std::iter::)?Peekable::<.*>::peek")
+def peekable_peek(ex, args):
+    it = deref(args[0])
+    if isinstance(it, CharsIter):
+        if it.i < len(it.s.chars): return some(Ref(it.s.chars, it.i))
+        return none()
+    if isinstance(it, SeqIter):
+        if it.i < len(it.items): return some(Ref(it.items, it.i))
+        return none()
+    raise Unsupported('peek on ' + type(it).__name__)
